@@ -14,6 +14,16 @@ Section B2C.
     if (match block_type with Some f => match fn_doc f with Some _ => true | None => false end | None => false end) then match PCD.Gen.SrcTables.found_index keq (d_consts st0) 0 with
       | OK (_, _, t) => OK (mkDec (d_names st0) (d_varnames st0) (d_cellvars st0) t) | Err e => Err e end
     else OK st0.
+  Definition additional_of (st2 : decstate C) : res (list (arg_ C)) :=
+    do a0 <- PCD.Gen.SrcTables.additional_args str_eqb (d_names st2); do a1 <- PCD.Gen.SrcTables.additional_args str_eqb (d_varnames st2); do a2 <- PCD.Gen.SrcTables.additional_args str_eqb (d_cellvars st2); do a3 <- PCD.Gen.SrcTables.additional_args keq (d_consts st2);
+    OK (map (fun p => AName (fst p) (snd p)) a0 ++ map (fun p => AVarname (fst p) (snd p)) a1 ++ map (fun p => ACellvar (fst p) (snd p)) a2 ++ map (fun p => AConst (fst p) (snd p)) a3).
+  Definition first_pass (blocks : list (list (instr_ C))) (additional_args : list (arg_ C)) (freevars : list str) (block_type : option function)
+      (st0 : encstate C) : res (list Z * encstate C) :=
+    do r <- foldM (fun acc block => foldM (fun (acc : list Z * encstate C) instruction =>
+              do v <- PCD.Gen.SrcFromArg.from_arg keq is_str none_c (i_arg instruction) block_type freevars (snd acc); OK (fst acc ++ [fst v], snd v)) block acc)
+            blocks ([], st0);
+    do st2 <- foldM (fun st arg => do v <- PCD.Gen.SrcFromArg.from_arg keq is_str none_c arg block_type freevars st; OK (snd v)) additional_args (snd r);
+    OK (map (fun iv : instr_ C * Z => match i_arg (fst iv) with AFreevar _ => snd iv + zlen (fa_items (e_cellvars st2)) | _ => snd iv end) (combine (concat blocks) (fst r)), st2).
 End B2C.
 Definition iter_code_data (d : code_data) : res (list code_data) :=
   do ks <- blocks_to_constants key_eqb is_str_const (KInner INone) (fun s => KInner (IStr s)) (cd_blocks d) (cd_addargs d) (cd_type d);
